@@ -369,6 +369,42 @@ def two_trainers(c):
     c.canary("canary_second_trainer_eval_silences_first", z3.BoolVal(tr1 and not tr2 and all(len(w.seen(m)) == 0 for m in mons.values())))
 
 
+@contract(P, "IndependentCellTrainer.iteration", [(LB, "IndependentCellTrainer.__iter__"), (LB, "IndependentCellTrainer.get_unit"), (LB, "IndependentCellTrainer.__init__"), (LB, "CellTrainer.named_monitors_of"), (LB, "CellTrainer.get_cell"), (PO, "MonitorPool.named_monitors_of"), (LB, "CellTrainer.add_cell"), (LB, "CellTrainer.add_monitor")], min_obligations=4)
+def iteration(c):
+    """what every trainer's forward iterates over: one (cell, auxiliary state, {name: monitor}) triple per registered
+    cell, in registration order, each with exactly ITS cell's state and monitors"""
+    shape = c.choice("pool_shape", ["one", "two_shared", "two_shared_plus_private", "two_layers"])
+    w = World(c, 2 if shape == "two_layers" else 1)
+    own = owners(shape)
+    tr = c.call(cls(c, LB, "IndependentCellTrainer"))
+    states = {}
+    Module = cls(c, INF, "Module")
+    for name, (L, conn) in own.items():
+        states[name] = c.interp.instantiate(Module, [], {}) if name == "a" else None  # a cell may have no auxiliary state
+        c.call(c.getattr(tr, "add_cell"), name, w.cells[L, conn], states[name])
+    mons = {}
+    add = c.getattr(tr, "add_monitor")
+    mons["a", "post"] = c.call(add, "a", "post", "neuron.spike", w.ctor("a.post"), False, tc=1.0)
+    mons["a", "pre"] = c.call(add, "a", "pre", "connection.synspike", w.ctor("a.pre"), False, tc=1.0)
+    if "b" in own:
+        mons["b", "post"] = c.call(add, "b", "post", "postspike", w.ctor("b.post"), False, tc=1.0)
+        mons["b", "pre"] = c.call(add, "b", "pre", "prespike", w.ctor("b.pre"), False, tc=1.0)
+    if shape == "two_shared_plus_private":
+        mons["a", "own"] = c.call(add, "a", "own", "neuron.spike", w.ctor("a.own"), True)
+    triples = list(c.interp.iterate(tr))
+    c.ensure("one_triple_per_registered_cell_in_registration_order", [t[0] for t in triples] == [w.cells[own[n]] for n in own])
+    for (name, (L, conn)), t in zip(own.items(), triples):
+        exp = {k[1]: m for k, m in mons.items() if k[0] == name}
+        c.ensure(f"{name}:its_own_auxiliary_state", t[1] is states[name])
+        c.ensure(f"{name}:exactly_its_own_monitors_by_name", isinstance(t[2], dict) and sorted(t[2]) == sorted(exp) and all(t[2][k] is exp[k] for k in exp))
+        unit = c.call(c.getattr(tr, "get_unit"), name)
+        um = unit.fields["monitors"]
+        c.ensure(f"{name}:get_unit_agrees", unit.fields["cell"] is w.cells[L, conn] and unit.fields["state"] is states[name] and sorted(um.d) == sorted(exp) and all(um.d[k] is exp[k] for k in exp))
+        got = c.call(c.getattr(tr, "get_cell"), name)
+        c.ensure(f"{name}:get_cell_agrees", got[0] is w.cells[L, conn] and got[1] is states[name])
+    c.canary("canary_monitors_of_first_cell_everywhere", z3.BoolVal(len(triples) > 1 and all(t[2].get("pre") is mons["a", "pre"] for t in triples)))
+
+
 MON_TARGETS = [
     (MO, "Monitor.__init__"), (MO, "Monitor.register"), (MO, "InputMonitor.__init__"), (MO, "InputMonitor._monitor_call"), (MO, "InputMonitor.partialconstructor"),
     (MO, "OutputMonitor.__init__"), (MO, "OutputMonitor._monitor_call"), (MO, "OutputMonitor.partialconstructor"), (MO, "StateMonitor.__init__"), (MO, "StateMonitor._monitor_call"),
@@ -466,6 +502,7 @@ MUTANTS = [
     dict(file=LB, func="CellTrainer.train", old="            for monitor in self.monitor_pool_.monitors:\n                monitor.deregister()", new="            for monitor in list(self.monitor_pool_.monitors):\n                monitor.deregister()", contracts=["CellTrainer.lifecycle"], expect="survives", name="control: materialising the iterator first is harmless"),
 ]
 MUTANTS += [
+    dict(file=LB, func="IndependentCellTrainer.__iter__", old="                dict(self.monitor_pool_.named_monitors_of(name)),", new="                dict(self.monitor_pool_.named_monitors_of(next(iter(self.cells_)))),", contracts=["IndependentCellTrainer.iteration"], name="every cell is trained from the first cell's monitors"),
     dict(file=MO, func="StateMonitor.__init__", old="posthook=\"_monitor_call\" if not as_prehook else None,", new="posthook=\"_monitor_call\",", contracts=["Monitor.kinds"]),
     dict(file=MO, func="DifferenceMonitor._monitor_post_call", old="self.reducer_(*self.map_(res, self.__data))", new="self.reducer_(*self.map_(self.__data, res))", contracts=["Monitor.kinds"]),
     dict(file=MO, func="MultiStateMonitor.__init__", old='self.__observed_attrs = tuple(f"{attr}.{satr}" for satr in subattrs)', new='self.__observed_attrs = tuple(f"{attr}.{satr}" for satr in subattrs[:1])', contracts=["Monitor.kinds"]),
